@@ -775,10 +775,13 @@ pub fn gen_doc(rng: &mut Rng, leaves: &[Leaf]) -> DVal {
         // sometimes the container itself has the wrong shape
         if !leaf.containers.is_empty() && rng.chance(6) {
             let c = &leaf.containers[0];
-            let v = match rng.below(3) {
+            let v = match rng.below(5) {
                 0 => junk_scalar(rng),
                 1 => DVal::Arr(vec![]),
-                _ => DVal::Arr(vec![junk_scalar(rng)]),
+                2 => DVal::Arr(vec![junk_scalar(rng)]),
+                // an object with none of the block's keys (empty: nothing at all to find)
+                3 => DVal::Obj(vec![]),
+                _ => DVal::Arr(vec![DVal::Obj(vec![])]),
             };
             place(&mut doc, c, v, rng);
             continue;
